@@ -94,6 +94,9 @@ func NewModel(s *Spec) *Model {
 			ri.IsRemove = true
 			ri.Reject = "(remove-step)"
 			m.HasRemoves = true
+			if r.RmInt > 0 {
+				continue // an int key matches no registration
+			}
 			if p, ok := m.Services[IdentKey{r.RmType, r.RmKey}]; ok {
 				delete(m.Services, IdentKey{r.RmType, r.RmKey})
 				tr := &m.Regs[p.Reg]
